@@ -21,7 +21,8 @@ RULE = ("G-scope documents (see C10: let / with wrappers, plain and rec sets nes
         "process-unique integer literals); every binding whose value is a bare name is edited "
         "through two routes - nima's set_value(source, 'k1.k2', NEW) and the API assignment "
         "source[k1][k2].value = NEW - on a fresh document and as histories of up to 5 edits on "
-        "one live document; the reference resolver names the one binding Nix scoping designates "
+        "one live document, the API histories interleaved with additions / deletions of possibly "
+        "shadowing bindings through the mapping API; the reference resolver names the one binding Nix scoping designates "
         "(end of the reference chain) and the expected document is rendered from the abstract "
         "program with exactly that value replaced (or, for a name bound nowhere, the binding at "
         "the path); the emitted text must have the same code tokens; which binding actually "
@@ -202,6 +203,65 @@ def apply_api(live, path, new):
         return ("exc", type(exc).__name__, str(exc)[:160], [c.__name__ for c in type(exc).__mro__])
 
 
+def set_paths(prog):
+    """Key paths of all sets of the target tree ([] = the root set)."""
+    out = [[]]
+
+    def walk(s, prefix):
+        for k, v in s.bindings.items():
+            if isinstance(v, S.SetExpr):
+                out.append(prefix + [k])
+                walk(v, prefix + [k])
+    walk(prog.root, [])
+    return out
+
+
+def mutate_structure(rng, prog, live):
+    """Add / delete an integer binding in one set of the live document through item assignment;
+    the abstract program is updated alike.  -> (what, path, name, new) | ("skip",) | None"""
+    paths = [p for p in set_paths(prog)
+             if not any(fr.kind == "with" for k in range(len(p))
+                        for fr in _setexpr_at(prog, p[:k + 1]).wrappers)]
+    if not paths:
+        return None
+    path = rng.choice(paths)
+    target = _setexpr_at(prog, path)
+    present = [n for n in S.NAMES if isinstance(target.bindings.get(n), int)]
+    absent = [n for n in S.NAMES if n not in target.bindings]
+    try:
+        v = live.source
+        for k in path:
+            v = v[k]
+        if present and (not absent or rng.random() < 0.4):
+            name = rng.choice(present)
+            del v[name]
+            del target.bindings[name]
+            what, new = "del", None
+        elif absent:
+            name = rng.choice(absent)
+            new = S.uid()
+            v[name] = new
+            target.bindings[name] = new
+            what = "add"
+        else:
+            return None
+        out = live.source.rebuild()
+    except Exception:  # noqa: BLE001 - the mapping API is C14's subject
+        return ("skip",)
+    prog.text = S.render(prog)
+    if tokens(out) != tokens(prog.text):
+        return ("skip",)   # mis-rendered structural edits are C14's subject
+    live.text = out
+    return (what, path, name, new)
+
+
+def _setexpr_at(prog, path):
+    cur = prog.root
+    for k in path:
+        cur = cur.bindings[k]
+    return cur
+
+
 def ref_queries(prog):
     out = []
 
@@ -250,6 +310,17 @@ def run_shard(spec):
             continue
         trail = []
         for step in range(steps):
+            if step and route == "api" and rng.random() < 0.5:
+                # between two write-throughs: add or delete a binding that may shadow a name, through
+                # the mapping API of the same live document (the next write must see the new scoping)
+                m = mutate_structure(rng, prog, live)
+                if m is None:
+                    pass
+                elif m[0] == "skip":
+                    break
+                else:
+                    trail.append({"route": "mutate", "what": m[0], "path": m[1], "name": m[2], "new": m[3]})
+                    B.bump(obs["kinds"], "structural-" + m[0])
             qs = [q for q in ref_queries(prog) if S.expectation(prog, q)[0] != "set"]
             if not qs:
                 break
@@ -379,6 +450,16 @@ def replay(case):
     live = E.LiveDoc(case["text"])
     outs = []
     for st in case["trail"]:
+        if st["route"] == "mutate":
+            v = live.source
+            for k in st["path"]:
+                v = v[k]
+            if st["what"] == "del":
+                del v[st["name"]]
+            else:
+                v[st["name"]] = st["new"]
+            outs.append("mutated: " + live.source.rebuild()[:300])
+            continue
         got = apply_cli(live, st["path"], st["new"]) if st["route"] == "cli" else apply_api(live, st["path"], st["new"])
         outs.append(repr(got)[:600])
     return {"text": case["text"], "trail": case["trail"], "observed": outs}
